@@ -75,3 +75,17 @@ Print Assumptions c03_symbol_names_shorter.
 Theorem c03_symbol_names_plain : ltac:(let t := type of core_ssn_plain in exact t).
 Proof. exact core_ssn_plain. Qed.
 Print Assumptions c03_symbol_names_plain.
+
+(* the ddmin strategy as a whole (Model/DdminTop.v): the granularity loop needs no assumption; under a measure that
+   re-duplication preserves and every accepted candidate decreases, reduce terminates with fuel S (mu x), the stage-1
+   and round loops included (a round with non-zero net reduction has adopted something) *)
+From DD Require Import Props.DdminTopProps.
+Theorem c03_ddmin_apply_mutator_terminates : ltac:(let t := type of top_apply_mutator_terminates in exact t).
+Proof. exact top_apply_mutator_terminates. Qed.
+Print Assumptions c03_ddmin_apply_mutator_terminates.
+Theorem c03_ddmin_reduce_terminates : ltac:(let t := type of top_reduce_terminates in exact t).
+Proof. exact top_reduce_terminates. Qed.
+Print Assumptions c03_ddmin_reduce_terminates.
+Theorem c03_ddmin_adoptions_bounded_by_measure : ltac:(let t := type of top_reduce_mu in exact t).
+Proof. exact top_reduce_mu. Qed.
+Print Assumptions c03_ddmin_adoptions_bounded_by_measure.
